@@ -272,7 +272,7 @@ class C10Machine(Machine):
                 val = "new" + str(rng.randint(1, 3))
             pairs.append([key, val])
         if rng.random() < 0.1:
-            pairs = pairs + [[f"irrelevant{i}", f"nowhere{i}"] for i in range(rng.choice([3, 10, 40]))]
+            pairs = pairs + [[f"irrelevant{i}", f"nowhere{i}"] for i in range(rng.choice([3, 10, 15, 16, 17, 40, 130]))]
         if rng.random() < 0.08:
             pairs = []      # the empty remapping: "nothing to do" must still give a new, independent converter
         if pairs and rng.random() < 0.25:
@@ -303,6 +303,9 @@ class C10Machine(Machine):
             else:
                 val = "n:" + str(rng.randint(1, 3)) + "/"
             pairs.append([key, val])
+        if rng.random() < 0.12:
+            # a LARGE mapping (a code path chosen by the size of the mapping must be met too)
+            pairs = pairs + [[f"irrelevant:{i}/", f"nowhere:{i}/"] for i in range(rng.choice([3, 13, 14, 15, 16, 17, 40, 130]))]
         if rng.random() < 0.08:
             pairs = []
         return {"op": "remap_uri", "out": self._fresh_id(), "h": h, "mapping": pairs}
@@ -328,6 +331,8 @@ class C10Machine(Machine):
             else:
                 val = "n:" + str(rng.randint(1, 3)) + "/"
             pairs.append([key, val])
+        if rng.random() < 0.12:
+            pairs = pairs + [[f"irrelevant{i}", f"nowhere:{i}/"] for i in range(rng.choice([3, 13, 14, 15, 16, 17, 40, 130]))]
         if rng.random() < 0.08:
             pairs = []
         return {"op": "rewire", "out": self._fresh_id(), "h": h, "mapping": pairs}
@@ -874,6 +879,10 @@ class C10Machine(Machine):
                     # normalises something that only other routes can put there): no faithful reference
                     raise ValueError("records do not round-trip")
                 ref = c.Converter(robjs, delimiter=base["delimiter"])
+                if sorted((observe.record_dump(r) for r in ref.records), key=observe.record_key) != \
+                        sorted(base["records"], key=observe.record_key):
+                    # (the constructor made something else of the records - say, sorted their synonym lists)
+                    raise ValueError("the constructor does not keep the records as given")
             except Exception:  # noqa: BLE001 - records the constructor / Record class no longer takes: no reference
                 self.event("no_reference_converter_for_input")
                 continue
